@@ -129,4 +129,8 @@ R.add('L17.1', l171, l171_instances, replay=replay_l171,
       bounds='name: <= 4 (thorough 6) separators of either kind, segments empty or arbitrary separator-free strings; '
              'root: <= 1 (thorough 2) separators, absolute / relative / "/", with or without trailing separator; cwd depth <= 1 (2)')
 
+for _lid in ['L17.1']:
+    if _lid in R.lemmas:
+        R.lemmas[_lid].api = True
+
 get_harness = R.get_harness
